@@ -149,6 +149,12 @@ class Rig:
             out.append([p, tr.invokeID, tr.state])
         return out
 
+    def netdigest(self):
+        """[adapterNet, adapterNetConfigured] and the keys the one adapter is filed under"""
+        a = self.dev.nsap.local_adapter
+        keys = sorted(self.dev.nsap.adapters.keys(), key=lambda k: -1 if k is None else k)
+        return [a.adapterNet, a.adapterNetConfigured, keys]
+
     def batch(self, frames):
         """inject all frames in the same instant -> observation record"""
         dev = self.dev
@@ -158,29 +164,36 @@ class Rig:
         del self.sent[:]
         del self.entries[:]
         e0 = len(vt.errors)
-        for (src, f) in norm(frames):
-            dev.peers[src].send(f)
+        for (src, f, bc) in norm(frames):
+            dev.peers[src].send(f, None if bc else C.DEVICE)
         ok1 = vt.run(until=vt.now + 0.001, max_loops=20000)
         per = []
         for i in range(len(frames)):
             per.append({"out": [[d, mask(o)] for (c, d, o) in self.sent if c == i and not is_unconf(o)],
                         "entries": [e for (c, e) in self.entries if c == i]})
-        mid = {"sv": self.digest(), "cl": len(dev.smap.clientTransactions), "dcc": dcc_code(dev.smap.dccEnableDisable)}
+        mid = {"sv": self.digest(), "cl": len(dev.smap.clientTransactions), "dcc": dcc_code(dev.smap.dccEnableDisable),
+               "net": self.netdigest()}
         stray0 = [[d, mask(o)] for (c, d, o) in self.sent if c is None and not is_unconf(o)]
         k = len(self.sent)
         ok2 = vt.run(max_loops=20000)
         late = [[d, mask(o)] for (c, d, o) in self.sent[k:] if not is_unconf(o)]
         res = dev.residue()
-        fin = {"out": stray0 + late, "sv": self.digest(), "cl": len(dev.smap.clientTransactions)}
+        fin = {"out": stray0 + late, "sv": self.digest(), "cl": len(dev.smap.clientTransactions), "net": self.netdigest()}
         return {"per": per, "mid": mid, "fin": fin, "residue": res, "terminated": ok1 and ok2,
                 "delivered": self.n, "errors": [list(e) for e in vt.errors[e0:][:3]],
                 "dcc": dcc_code(dev.smap.dccEnableDisable),
-                "iam": bool(getattr(dev.app.deviceInfoCache, "cache", None))}
+                "iam": bool(getattr(dev.app.deviceInfoCache, "cache", None)),
+                "paths": len(dev.nsap.router_info_cache.path_info)}
 
 
 def norm(frames):
-    """a batch as [(sending station, octets)]"""
-    return [f if isinstance(f, tuple) else (C.PEER, f) for f in frames]
+    """a batch as [(sending station, octets, link-level broadcast?)]"""
+    out = []
+    for f in frames:
+        if not isinstance(f, tuple):
+            f = (C.PEER, f)
+        out.append((f[0], f[1], bool(len(f) > 2 and f[2])))
+    return out
 
 
 def mask(octets):
@@ -397,6 +410,63 @@ def shapes(ctx, rng, T):
             # a segmented answer to a routed client: retransmissions go to the router as well
             bigr = C.routed(big, net, sa_)
             out.append(([(X, bytes([1, 0x08]) + bytes([net >> 8, net & 255, len(sa_)]) + sa_), (R, bigr)], "routed/segresp"))
+    # 12. strangers: while a 7-segment answer to station 10 is open, stations 11 / 12 send Abort, SegmentAck
+    #     and other PDU types carrying the SAME invoke id (and other ids); station 10 then goes on acknowledging:
+    #     its transfer must continue untouched (every segment arrives, nothing it did not cause), the strangers
+    #     get nothing or an answer of their own
+    def other(st, inv):
+        l = [abort(inv), abort(inv, srv=True), abort(inv, reason=9)]
+        l += [segack(inv, q_, w_, nak=n_, srv=v_) for q_ in (0, 2, 6, 7, 200) for w_ in (0, 1, 2, 127, 255)
+              for (n_, v_) in ((False, False), (True, False))]
+        l += [segack(inv, 6, 2, srv=True), segack(inv, 2, 2, nak=True, srv=True)]
+        l += [b"\x01\x00" + bytes([0x20, inv, 14]), b"\x01\x00" + bytes([0x30, inv, 14, 0x0c]), b"\x01\x00" + bytes([0x50, inv, 14, 0x91, 0, 0x91, 0]),
+              b"\x01\x00" + bytes([0x60, inv, 4]), b"\x01\x04" + cr_hdr(inv, 12) + rp[4:], b"\x01\x04" + cr_hdr(inv, 15, seg=(1, 2), mor=True) + b"\x00"]
+        return [(st, x) for x in l]
+    strangers = other(11, 45) + other(12, 45)[:8] + other(11, 44)[:12]
+    for when in (1, 2, 3):
+        for sx in strangers:
+            script = [big, segack(45, 0, 2), segack(45, 2, 2), segack(45, 4, 2), segack(45, 6, 2)]
+            script.insert(when + 1, sx)
+            out.append((script, "stranger/at%d" % when))
+    for sx in strangers[:60]:
+        out.append(([big, segack(45, 0, 2), sx], "stranger/then-silence"))
+    # 13. the network layer talks first: 1..3 network messages of every type with varying parameters, unicast
+    #     and broadcast, from different stations (Network-Number-Is with several numbers and flags, …), THEN
+    #     (kept step) valid local and routed requests: each answered as on a fresh device, to its deliverer
+    def nm(mt, b):
+        return bytes([1, 0x80, mt]) + b
+    nni = lambda n_, fl: nm(0x13, bytes([n_ >> 8, n_ & 255, fl]))
+    msgpool = [(nni(5, 0), True), (nni(6, 0), True), (nni(5, 1), True), (nni(7, 2), True), (nni(300, 0), True), (nni(5, 0), False),
+               (nni(0, 0), True), (nni(65535, 0), True), (nm(0x13, b"\x00\x05"), True), (nm(0x12, b""), True), (nm(0x12, b""), False),
+               (nm(0x01, b"\x00\x05"), False), (nm(0x01, b"\x00\x05\x00\x06\x01\x2c"), True), (nm(0x00, b""), True), (nm(0x00, b"\x00\x05"), False),
+               (nm(0x02, b"\x00\x05\x01"), False), (nm(0x03, b"\x01\x00\x05"), False), (nm(0x04, b"\x00\x05"), True), (nm(0x05, b"\x00\x05"), True),
+               (nm(0x06, b"\x01\x00\x05\x01\x00"), False), (nm(0x07, b"\x00"), False), (nm(0x08, b"\x00\x05\x01"), False),
+               (nm(0x09, b"\x00\x05"), False), (bytes([1, 0x88, 0, 5, 1, 7, 0x13, 0, 6, 0]), True), (bytes([1, 0xA0, 0xff, 0xff, 0, 0xff, 0x13, 0, 9, 0]), True)]
+
+    def after_requests():
+        fr = [(10, rpv[:4] + bytes([48]) + rpv[5:])]
+        for i_, n_ in enumerate((5, 6, 7, 300, 9)):
+            fr.append((12 if i_ % 2 == 0 else 11, C.routed(rpv[:4] + bytes([50 + i_]) + rpv[5:], n_, b"\x07")))
+        fr.append((10, bytes([1, 0x24, 0xff, 0xff, 0, 0]) + rpv[2:4] + bytes([56]) + rpv[5:]))
+        fr.append((10, bytes([1, 0x24, 0, 5, 1, C.DEVICE, 0]) + rpv[2:4] + bytes([57]) + rpv[5:]))       # directed to (5, our MAC), hop count 0
+        fr.append((10, bytes([1, 0x24, 0, 6, 1, C.DEVICE, 255]) + rpv[2:4] + bytes([58]) + rpv[5:]))
+        fr.append((10, bytes([1, 0x24, 0, 5, 0, 1]) + rpv[2:4] + bytes([59]) + rpv[5:]))
+        return fr
+    seqs = [[m] for m in msgpool]
+    seqs += [[msgpool[a], msgpool[b]] for a in range(0, 11) for b in range(0, 11) if a != b]
+    seqs += [[msgpool[0], msgpool[1], msgpool[0]], [msgpool[1], msgpool[0], msgpool[4]], [msgpool[2], msgpool[1], msgpool[3]],
+             [msgpool[0], msgpool[9], msgpool[1]], [msgpool[0], msgpool[9], msgpool[9]], [msgpool[0], msgpool[11], msgpool[1]],
+             [msgpool[12], msgpool[0], msgpool[1]], [msgpool[0], msgpool[10], msgpool[1]], [msgpool[3], msgpool[0], msgpool[1]]]
+    for q_, sq in enumerate(seqs):
+        stations = (11, 12, 10)
+        step = [(stations[(q_ + i_) % 3], m, bc) for i_, (m, bc) in enumerate(sq)]
+        if q_ % 2:
+            out.append((step, "netfirst/%d" % len(sq)))
+            out.append((after_requests(), "afternet/requests", True))
+        else:       # one step at a time, quiescence in between
+            for i_, x in enumerate(step):
+                out.append(([x], "netfirst/single", i_ > 0))
+            out.append((after_requests(), "afternet/requests", True))
     # 9. DeviceCommunicationControl: disable (with and without duration), then traffic
     dcc_dis = T["dcc"][:6] + bytes.fromhex("0901") + bytes.fromhex("1901")
     dcc_dis_forever = T["dcc"][:6] + bytes.fromhex("1901")
@@ -507,7 +577,9 @@ def shard(ctx, spec):
         reqs.extend(model_ops(frames, rec))
         plan.append((frames, label, pos, rec, first, list(past)))
         past.append(frames)
-        dirty = bool(rec["dcc"] != 0 or rec["iam"] or rec["residue"]["client"] or rec["residue"]["server"])
+        # what the next scenario must not inherit (a replay starts from a fresh device)
+        dirty = bool(rec["dcc"] != 0 or rec["iam"] or rec["residue"]["client"] or rec["residue"]["server"]
+                     or rec["fin"]["net"] != [None, None, [None]] or rec["paths"])
     replies = core.Driver("drv_c10").ask(reqs) if model_ok else None
     for frames, label, pos, rec, first, hist in plan:
         judge(ctx, stream, frames, label, pos, rec,
@@ -516,18 +588,31 @@ def shard(ctx, spec):
 
 def model_ops(frames, rec):
     ops = []
-    for (src, fr), per in zip(frames, rec["per"]):
+    for (src, fr, bc), per in zip(frames, rec["per"]):
         ans = [dict(e) for e in per["entries"] if e["k"] not in ("silent", "other")]
         for a in ans:
             a.pop("own", None)
-        ops.append({"op": "recv", "src": "%02x" % src, "hex": fr.hex(), "app": ans})
+        ops.append({"op": "recv", "src": "%02x" % src, "bc": bc, "hex": fr.hex(), "app": ans})
     ops.append({"op": "quiesce"})
     ops.append({"op": "dcc", "d": rec["dcc"]})
     return ops
 
 
-COUNTED = ("valid", "helper", "burst", "dup", "followup")        # every request of the batch completes: n requests, n replies
+COUNTED = ("valid", "helper", "burst", "dup", "followup", "afternet")        # every request of the batch completes: n requests, n replies
 ANSWERED = COUNTED + ("npci", "segresp", "hostile")               # at least one reply per invoke id
+
+
+_FRESH = {}
+
+
+def fresh_apdu(local_frame):
+    """APDU octets of the reply of a fresh device to a request sent by a station of its own LAN"""
+    if local_frame not in _FRESH:
+        dev = C.build()()
+        out = dev.inject([local_frame])
+        r = [raw for (h, raw) in out["replies"] if h and h.get("type") in C.REPLY_TYPES]
+        _FRESH[local_frame] = r[0][2:] if r else None
+    return _FRESH[local_frame]
 
 
 def classify_routed(f):
@@ -559,16 +644,28 @@ def oracle(ctx, stream, case, frames, label, rec):
         hs = [C.decode_apdu_header(bytes.fromhex(o)) for (_d, o) in allout]
         answered = collections.Counter(h.get("invoke") for h in hs if h and h.get("type") in C.REPLY_TYPES
                                        and not (h.get("seg") and h.get("seq")))
-        owed = collections.Counter(inv for (kind, inv) in (C.classify(f) for (_s, f) in frames) if kind == "confirmed")
+        owed = collections.Counter(inv for (kind, inv) in (C.classify(f) for (_s, f, _b) in frames) if kind == "confirmed")
         for inv, n in sorted(owed.items()):
             # each request completes before the next one of the same instant is looked at
             if answered[inv] < (n if group in COUNTED else 1):
                 ctx.fail("silence", case, "%d confirmed request(s) with invoke %d got %d replies" % (n, inv, answered[inv]),
                          errors=rec["errors"])
-    if group == "routed":
+    if group == "stranger":
+        # the transfer to station 10 (invoke 45, 7 segments) is nobody else's business
+        to10 = [C.decode_apdu_header(bytes.fromhex(o)) for (dst, o) in allout if dst == "%02x" % C.PEER]
+        segs = set(h.get("seq") for h in to10 if h and h.get("type") == 3 and h.get("seg") and h.get("invoke") == 45)
+        final = [h for h in to10 if h and h.get("type") == 3 and h.get("seg") and h.get("invoke") == 45 and not h.get("mor")]
+        aborted = [h for h in to10 if h and h.get("type") == 7]
+        if aborted:
+            ctx.fail("foreign-abort", case, "station 10 received an abort it did not cause: %r" % (aborted[:1],), errors=rec["errors"])
+        elif label != "stranger/then-silence" and (segs != set(range(7)) or not final):
+            ctx.fail("transfer-disturbed", case, "the segmented answer to station 10 did not complete: segments %r, final %d" % (
+                sorted(segs), len(final)), errors=rec["errors"])
+    if group in ("routed", "afternet"):
+        own = rec["mid"]["net"][0]
         # the reply to a routed request goes, at link level, to the station that delivered THAT request,
         # with DNET/DADR = the request's SNET/SADR, exactly once
-        for (src, f) in frames:
+        for (src, f, _bc) in frames:
             r = classify_routed(f)
             if r is None:
                 continue
@@ -581,12 +678,24 @@ def oracle(ctx, stream, case, frames, label, rec):
                     hits.append(dst)
                     segmented = segmented or bool(h.get("seg"))
             want = ["%02x" % src]
-            same = [1 for (s2, f2) in frames if classify_routed(f2) == r]
+            same = [1 for (s2, f2, _b2) in frames if classify_routed(f2) == r]
             if segmented:
                 hits = sorted(set(hits))          # segments and their retransmissions: all to that station
+            if snet == own:
+                continue                          # a source network equal to the LAN's own learned number is a path error
             if len(same) == 1 and hits != want:
                 ctx.fail("routed-reply", case, "routed request (invoke %d, network %d via station %d) was answered to %r" % (
                     inv, snet, src, hits), errors=rec["errors"])
+            elif len(same) == 1 and group == "afternet":
+                # ... and says what a fresh device says to the same request asked locally
+                slen = f[4]
+                local = bytes([f[0], f[1] & ~0x08]) + f[5 + slen:]
+                got = [bytes.fromhex(o) for (dst, o) in allout if C.reply_route(bytes.fromhex(o)) == (snet, sadr)
+                       and (C.decode_apdu_header(bytes.fromhex(o)) or {}).get("invoke") == inv]
+                apdu = got[0][6 + len(sadr):] if got else None
+                if apdu != fresh_apdu(local):
+                    ctx.fail("routed-reply", case, "routed request (invoke %d, network %d) answered %r, a fresh device answers %r" % (
+                        inv, snet, apdu and apdu.hex(), fresh_apdu(local) and fresh_apdu(local).hex()))
     if group == "valid":
         # a request produced by the library's own encoder must reach the application
         e = rec["per"][0]["entries"]
@@ -596,9 +705,9 @@ def oracle(ctx, stream, case, frames, label, rec):
 
 def judge(ctx, stream, frames, label, pos, rec, mrep, hist=()):
     case = {"stream": "model/" + stream, "template": label, "pos": pos,
-            "frames": [[src, f.hex()] for (src, f) in frames]}
+            "frames": [[src, f.hex(), bc] for (src, f, bc) in frames]}
     if hist:
-        case["history"] = [[[src, f.hex()] for (src, f) in step] for step in hist]
+        case["history"] = [[[src, f.hex(), bc] for (src, f, bc) in step] for step in hist]
     oracle(ctx, stream, case, frames, label, rec)
     if mrep is None:
         ctx.count("impl-only/" + stream, label)
@@ -610,7 +719,7 @@ def judge(ctx, stream, frames, label, pos, rec, mrep, hist=()):
         ctx.count("model/skipped", "iam" if rec["iam"] else "undelivered")
         return
     impl_view, model_view = [], []
-    for i, ((src, fr), per, m) in enumerate(zip(frames, rec["per"], mrep)):
+    for i, ((src, fr, _bc), per, m) in enumerate(zip(frames, rec["per"], mrep)):
         asked_m = m["asked"]
         ents = per["entries"]
         if len(ents) > 1:
@@ -640,15 +749,15 @@ def judge(ctx, stream, frames, label, pos, rec, mrep, hist=()):
         ctx.count("model/" + stream, sig)
     last = mrep[len(frames) - 1]
     q = mrep[len(frames)]
-    impl_view.append({"mid": rec["mid"]["sv"], "cl": rec["mid"]["cl"], "dcc": rec["mid"]["dcc"]})
-    model_view.append({"mid": last["sv"], "cl": last["cl"], "dcc": last["dcc"]})
+    impl_view.append({"mid": rec["mid"]["sv"], "cl": rec["mid"]["cl"], "dcc": rec["mid"]["dcc"], "net": rec["mid"]["net"]})
+    model_view.append({"mid": last["sv"], "cl": last["cl"], "dcc": last["dcc"], "net": last["net"] + [[last["net"][0]]]})
     qi, qm = rec["fin"]["out"], q["out"]
     if stream == "history":
         # transactions whose timers are due at the same instant fire in task-installation order in the
         # scheduler and in list order in the model: compare per transaction (they are independent, C11)
         qi, qm = sorted(qi, key=by_invoke), sorted(qm, key=by_invoke)
-    impl_view.append({"q": qi, "sv": rec["fin"]["sv"], "cl": rec["fin"]["cl"]})
-    model_view.append({"q": qm, "sv": q["sv"], "cl": q["cl"]})
+    impl_view.append({"q": qi, "sv": rec["fin"]["sv"], "cl": rec["fin"]["cl"], "net": rec["fin"]["net"]})
+    model_view.append({"q": qm, "sv": q["sv"], "cl": q["cl"], "net": q["net"] + [[q["net"][0]]]})
     ctx.count("model/quiesce", (len(rec["mid"]["sv"]), q.get("br")))
     if core.canon(impl_view) != core.canon(model_view):
         # keep the first difference readable
@@ -664,7 +773,7 @@ def reference_oracle(ctx, case, frames, rec, mrep):
     out_all = [o for per in rec["per"] for o in per["out"]] + rec["fin"]["out"]
     hdrs = [C.decode_apdu_header(bytes.fromhex(o)) for (_d, o) in out_all]
     hdrs = [h for h in hdrs if h and h.get("type") in C.REPLY_TYPES]
-    for i, ((_src, fr), per, m) in enumerate(zip(frames, rec["per"], mrep)):
+    for i, ((_src, fr, _bc), per, m) in enumerate(zip(frames, rec["per"], mrep)):
         kind, inv = C.classify(fr)
         if kind != "confirmed":
             continue
@@ -729,7 +838,8 @@ def run(ctx):
 
 
 def unhex(frames):
-    return [(f[0], bytes.fromhex(f[1])) if isinstance(f, (list, tuple)) else (C.PEER, bytes.fromhex(f)) for f in frames]
+    return norm([(f[0], bytes.fromhex(f[1])) + tuple(f[2:3]) if isinstance(f, (list, tuple)) else bytes.fromhex(f)
+                 for f in frames])
 
 
 def replay_frames(ctx, frames, label="replay", stream="replay", history=()):
